@@ -65,4 +65,56 @@ def squareBaseVectors (surfs : List ((V3 α × V3 α) × Int)) : Option (List (V
   else (squareReciprocal surfs).bind latticeReciprocal
 end
 
+/-! ## `CellConversion.develop_lattice`: one new cell per array entry -/
+
+section
+variable {α : Type} [Add α] [Sub α] [Mul α] [Div α] [Neg α] [OfNat α 0] [OfNat α 1]
+
+/-- `compose_transform(trans1, trans2)` on 12-number lists (matrix row-major): `trans1` first -/
+def composeTr (t1 t2 : List α) : Option (List α) :=
+  match t1, t2 with
+  | [a1, a2, a3, m11, m12, m13, m21, m22, m23, m31, m32, m33],
+    [b1, b2, b3, n11, n12, n13, n21, n22, n23, n31, n32, n33] =>
+      some [n11 * a1 + n12 * a2 + n13 * a3 + b1, n21 * a1 + n22 * a2 + n23 * a3 + b2, n31 * a1 + n32 * a2 + n33 * a3 + b3,
+            n11 * m11 + n12 * m21 + n13 * m31, n11 * m12 + n12 * m22 + n13 * m32, n11 * m13 + n12 * m23 + n13 * m33,
+            n21 * m11 + n22 * m21 + n23 * m31, n21 * m12 + n22 * m22 + n23 * m32, n21 * m13 + n22 * m23 + n23 * m33,
+            n31 * m11 + n32 * m21 + n33 * m31, n31 * m12 + n32 * m22 + n33 * m32, n31 * m13 + n32 * m23 + n33 * m33]
+  | _, _ => none
+
+inductive LatErr | dims | nontrivial | transform deriving Repr, DecidableEq
+
+structure LatElem (α : Type) where
+  index : List Int
+  transl : V3 α
+  fill : Option Nat          -- `none` = the element is filled with the lattice cell's own universe (material kept)
+  filltr : List α
+
+/-- `develop_lattice`: `base` = the lattice vectors, `bounds`/`spec` = the FILL array, `univ` = the universe the
+lattice cell belongs to, `filltr` = its FILL transformation (12 numbers), `trcl` = its TRCL -/
+def developLattice (base : List (V3 α)) (bounds : List (Int × Int)) (spec : List Nat) (univ : Nat)
+    (filltr trcl : Option (List α)) : Except LatErr (List (LatElem α)) :=
+  let check : Except LatErr Unit :=
+    if base.length != bounds.length then
+      if base.length != latDims bounds then .error .dims
+      else
+        -- the surplus ranges (counted from the end) must be trivial
+        let nMissing := base.length - bounds.length   -- (negative in Python: the loop body never runs)
+        let surplus := (bounds.reverse.take nMissing)
+        if surplus.any (fun r => r.1 != r.2) then .error .nontrivial else .ok ()
+    else .ok ()
+  match check with
+  | .error e => .error e
+  | .ok () =>
+    (latItems bounds spec).filter (·.2 != 0) |>.mapM fun (idx, u) =>
+      let t := latticeVector base idx
+      let trnsf : List α := [t.x, t.y, t.z, 1, 0, 0, 0, 1, 0, 0, 0, 1]
+      let nf : Option (List α) := match filltr with | some f => composeTr f trnsf | none => some trnsf
+      let nf : Option (List α) := match trcl, filltr with
+        | some tc, none => nf.bind fun x => composeTr tc x
+        | _, _ => nf
+      match nf with
+      | some x => .ok { index := idx, transl := t, fill := if u == univ then none else some u, filltr := x }
+      | none => .error .transform
+end
+
 end T4V
